@@ -110,6 +110,8 @@ type DB struct {
 	tables    map[string]*Table // "schema.table"
 	sequences map[string]*int64
 	seqCalled map[string]bool
+	seqCache  map[string]int64             // CACHE setting of a sequence (absent = 1)
+	seqLocal  map[int64]map[string]*[2]int64 // per session: the preallocated values not yet handed out [next, last]
 	xacts     map[int64]*xact
 	nextXid   int64
 	nextConn  int64
@@ -143,6 +145,8 @@ func NewDB() *DB {
 		tables:     map[string]*Table{},
 		sequences:  map[string]*int64{},
 		seqCalled:  map[string]bool{},
+		seqCache:   map[string]int64{},
+		seqLocal:   map[int64]map[string]*[2]int64{},
 		xacts:      map[int64]*xact{},
 		advisory:   map[int64]*advisoryLock{},
 		waits:      map[int64]int64{},
